@@ -72,3 +72,50 @@ fn failed_reorg_terminates_and_restores_tip() {
         }
     }
 }
+
+fn fill_chain(bc: &mut Blockchain, shared: u64, tip: u64, tag: u8) {
+    for id in 1..=tip {
+        let mut b = Block::new();
+        b.id = id;
+        // shared prefix carries the same hashes on both chains; the suffix is chain specific
+        let mut h = [0u8; 32];
+        for (k, x) in h.iter_mut().enumerate() { *x = (id as u8).wrapping_mul(31).wrapping_add(k as u8 * 7).wrapping_add(if id <= shared { 0 } else { tag }); }
+        h[31] = if id <= shared { 0 } else { tag };
+        b.hash = h;
+        bc.blockring.add_block(&b);
+        bc.blockring.on_chain_reorganization(id, h, true);
+    }
+}
+
+/// C15 (second sentence): the common-ancestor estimate computed from the peer's fork id is never above the true fork
+/// point, and both chains hold the same block at the estimated height
+#[tokio::test]
+#[serial_test::serial]
+async fn shared_ancestor_estimate_contract() {
+    let mut rng = Rng::from_env();
+    for round in 0..60 {
+        let ta = TestManager::default();
+        let tb = TestManager::default();
+        let mut a = ta.blockchain_lock.write().await;
+        let mut b = tb.blockchain_lock.write().await;
+        let ring = a.blockring.get_ring_buffer_size();
+        let max_tip = (ring - 1).min(150);
+        let tip_a = 1 + rng.below(max_tip);
+        let tip_b = 1 + rng.below(max_tip);
+        let shared = rng.below(tip_a.min(tip_b) + 1);
+        fill_chain(&mut a, shared, tip_a, 0xA0);
+        fill_chain(&mut b, shared, tip_b, 0xB0);
+        // b asks a: a estimates the last shared ancestor from b's fork id
+        let fork_id_b = b.generate_fork_id(tip_b).unwrap();
+        let est = a.generate_last_shared_ancestor(tip_b, fork_id_b);
+        let desc = format!("round {}: shared prefix 1..={}, my tip {}, peer tip {} → estimate {}", round, shared, tip_a, tip_b, est);
+        if est > tip_a { witness(format!("estimate above my own tip: {}", desc)); }
+        if est > shared {
+            // a 2-byte collision could make this legitimate; the generated hashes differ in every byte beyond the prefix
+            witness(format!("common-ancestor estimate is above the true fork point (blocks would be skipped): {}", desc));
+        }
+        if est > 0 && a.blockring.get_longest_chain_block_hash_at_block_id(est) != b.blockring.get_longest_chain_block_hash_at_block_id(est) {
+            witness(format!("the two chains hold different blocks at the estimated height: {}", desc));
+        }
+    }
+}
